@@ -3,6 +3,7 @@ the per-destination wrappers / path reconstruction (C11, C12, C19)."""
 from .model import NS
 from .report import Finding, RuleResult
 from .rules_pair import eval_order, strip_cast
+from .rules_pair import region_atoms
 from .rules_val import var_defs, is_size_term, graph_like
 from .terms import Terms, show, subterms
 
@@ -644,8 +645,21 @@ def check_heap(m, f, res):
             t = tt.t(n['i'])
             if t[2][0] == 'idx' and t[2][1][0] == 'var' and t[2][1][1] == key_arr:
                 events[n['i']] = 'key.write'
+    # declaration of the vector: empty, or a braced list of one element (at most one element is a heap for any ordering)
+    for n in f.nodes:
+        if n['k'] == 'DeclStmt' and H[0] == 'var' and H[1] in n['decls']:
+            ix = n['decls'].index(H[1])
+            it0 = tt.t(n['c'][ix]) if ix < len(n['c']) and n['c'][ix] >= 0 else ('ctor', '', ())
+            a0 = [x for x in it0[2] if not (x[0] == 'ctor' and 'allocator' in x[1])] if it0[0] == 'ctor' else None
+            if a0 == []:
+                events[n['i']] = 'H.init0'
+            elif a0 is not None and len(a0) == 1 and a0[0][0] == 'ctor' and a0[0][1].endswith('[1]'):
+                events[n['i']] = 'H.init1'
+            else:
+                events[n['i']] = 'H.initN'
+    RANK = {'EMPTY': 0, 'ONE': 1, 'HEAP': 2}
     IN = {b: None for b in f.blocks}
-    IN[f.entry] = 'HEAP'      # the empty vector is a heap
+    IN[f.entry] = 'EMPTY'
     work = [f.entry]
     viol = []
     seen_after_pop_heap = []
@@ -654,14 +668,26 @@ def check_heap(m, f, res):
         k = events.get(nid)
         if k is None:
             return state
+        if k == 'H.init0':
+            return 'EMPTY'
+        if k == 'H.init1':
+            return 'ONE'
+        if k == 'H.initN':
+            return 'DIRTY'
+        if k in ('H.push_back', 'H.emplace_back') and state == 'EMPTY':
+            return 'ONE'
+        if k == 'key.write' and state in ('EMPTY', 'ONE'):
+            return state
+        if k in ('H.push_back', 'H.emplace_back') and state == 'HEAP':
+            return 'PUSHED'
         if k in ('H.push_back', 'H.emplace_back', 'H.insert', 'key.write', 'H.erase', 'H.resize'):
             return 'DIRTY'
         if k == 'make_heap':
             return 'HEAP'
         if k == 'push_heap':
-            return 'HEAP' if state == 'PUSHED' else 'DIRTY'
+            return 'HEAP' if state in ('PUSHED', 'ONE') else 'DIRTY'
         if k in ('pop_heap', 'H.front'):
-            if state != 'HEAP':
+            if state not in RANK:
                 viol.append((nid, k))
             return 'POPPED' if k == 'pop_heap' else state
         if k == 'H.pop_back':
@@ -670,7 +696,7 @@ def check_heap(m, f, res):
             viol.append((nid, 'pop_back without pop_heap'))
             return 'DIRTY'
         if k == 'H.clear':
-            return 'HEAP'
+            return 'EMPTY'
         return state
     it = 0
     while work and it < 5000:
@@ -685,7 +711,12 @@ def check_heap(m, f, res):
             if sx < 0:
                 continue
             old = IN[sx]
-            new = st if old is None else (old if old == st else 'DIRTY')
+            if old is None or old == st:
+                new = st
+            elif old in RANK and st in RANK:
+                new = old if RANK[old] >= RANK[st] else st
+            else:
+                new = 'DIRTY'
             if new != old:
                 IN[sx] = new
                 work.append(sx)
@@ -784,10 +815,8 @@ def rule_wrappers(m):
                 if why is None:
                     # guard: pv.first[dest] != sentinel (true edge)
                     okg = False
-                    for dep in f.region(rcalls[0]['i']):
-                        a = f.branch_atom(dep[0])
-                        t = tt.t(a) if a is not None else None
-                        if t and t[0] == 'bin' and t[1] == '!=' and dep[1] == 0:
+                    for t in region_atoms(f, tt, rcalls[0]['i']):
+                        if t and t[0] == 'bin' and t[1] == '!=':
                             l, r = strip_cast(t[2]), strip_cast(t[3])
                             if l == ('idx', ('member', pv, 'std::pair::first'), dest) and _sentinel(r):
                                 okg = True
@@ -798,10 +827,8 @@ def rule_wrappers(m):
                     okr = False
                     for n in f.nodes:
                         if n['k'] == 'ReturnStmt':
-                            for dep in f.region(n['i']):
-                                a = f.branch_atom(dep[0])
-                                t = tt.t(a) if a is not None else None
-                                if t and t[0] == 'bin' and t[1] == '==' and {t[2], t[3]} == {src, dest} and dep[1] == 0:
+                            for t in region_atoms(f, tt, n['i']):
+                                if t and t[0] == 'bin' and t[1] == '==' and {t[2], t[3]} == {src, dest}:
                                     rt = tt.t(f.children(n['i'])[0])
                                     if src in list(subterms(rt)):
                                         okr = True
@@ -833,10 +860,8 @@ def rule_wrappers(m):
             throws = [n for n in f.nodes if n['k'] == 'CXXThrowExpr']
             okt = False
             for t in throws:
-                for dep in f.region(t['i']):
-                    a = f.branch_atom(dep[0])
-                    tm = tt.t(a) if a is not None else None
-                    if tm and tm[0] == 'bin' and tm[1] == '==' and strip_cast(tm[2]) == cur and _sentinel(tm[3]) and dep[1] == 0:
+                for tm in region_atoms(f, tt, t['i']):
+                    if tm and tm[0] == 'bin' and tm[1] == '==' and strip_cast(tm[2]) == cur and _sentinel(tm[3]):
                         okt = True
             if not okt:
                 why = why or 'the sentinel predecessor is not rejected with an exception'
@@ -847,10 +872,8 @@ def rule_wrappers(m):
         if why is None:
             for t in throws:
                 okt2 = False
-                for dep in f.region(t['i']):
-                    a = f.branch_atom(dep[0])
-                    tm = tt.t(a) if a is not None else None
-                    if tm and tm[0] == 'bin' and tm[1] == '==' and strip_cast(tm[2]) == cur and _sentinel(tm[3]) and dep[1] == 0:
+                for tm in region_atoms(f, tt, t['i']):
+                    if tm and tm[0] == 'bin' and tm[1] == '==' and strip_cast(tm[2]) == cur and _sentinel(tm[3]):
                         okt2 = True
                     if tm and tm[0] == 'bin' and tm[1] in ('>=', '>') and is_size_term(m, f, strip_cast(tm[3]), tt) and \
                             strip_cast(tm[2])[0] == 'var' and f.unit.decl(strip_cast(tm[2])[1])['dk'] == 'ParmVar':
@@ -858,10 +881,8 @@ def rule_wrappers(m):
                 if not okt2:
                     # a bound on the length of the partial path: a shortest path has at most V vertices and the partial
                     # path (without the source, which is prepended after the loop) at most V - 1
-                    for dep in f.region(t['i']):
-                        a = f.branch_atom(dep[0])
-                        tm = tt.t(a) if a is not None else None
-                        if tm and tm[0] == 'bin' and tm[1] in ('>=', '>') and dep[1] == 0:
+                    for tm in region_atoms(f, tt, t['i']):
+                        if tm and tm[0] == 'bin' and tm[1] in ('>=', '>'):
                             l, r = strip_cast(tm[2]), strip_cast(tm[3])
                             if l[0] == 'mcall' and l[1].endswith('::size') and l[2][0] == 'var':
                                 c = None
@@ -967,9 +988,8 @@ def rule_enumpaths(m):
                                    u.decl(n['callee'])['name'] == 'push_back' and tt.t(n['args'][0]) == cl]
                             okr = False
                             for n in rec:
-                                for dep in f.region(n['i']):
-                                    t = tt.t(f.branch_atom(dep[0]))
-                                    if t[0] == 'bin' and t[1] == '==' and {t[2], t[3]} == {cur, src} and dep[1] == 0:
+                                for t in region_atoms(f, tt, n['i']):
+                                    if t[0] == 'bin' and t[1] == '==' and {t[2], t[3]} == {cur, src}:
                                         pb = [x for x in f.nodes if x['k'] == 'CXXMemberCallExpr' and 'callee' in x and
                                               u.decl(x['callee'])['name'] == 'push_back' and tt.t(x['obj']) == cl and
                                               tt.t(x['args'][0]) == dest and f.region(x['i']) == f.region(n['i']) and
